@@ -23,8 +23,8 @@ RULE = (
 ASSUMPTIONS = ["child processes are replaced by harness-controlled fake processes (asyncio.create_subprocess_shell patched in the harness process)"]
 
 
-QUICK_BUDGET = {"cases": 25000, "deadline_s": 170, "case_timeout_s": 60, "floors": {"spawn_events": 28998, "bad_dep_tasks": 10000}}
-THOROUGH_FACTOR = 32  # thorough = the same workload with 32x the cases (floors scale along)
+QUICK_BUDGET = {"cases": 50000, "deadline_s": 170, "case_timeout_s": 60, "floors": {"spawn_events": 57996, "bad_dep_tasks": 20000}}
+THOROUGH_FACTOR = 16  # thorough = the same workload with 16x the cases (floors scale along)
 
 
 def budget(tier):
